@@ -37,7 +37,7 @@ CLAIM = ("Every EOS class of the library with every constants vector of its latt
          "covering both sides of the Steinberg branch point; both closures and all four partials are checked at every state. Every "
          "residual class is instantiated for every (EOS, symmetry, initial state) of the lattice and F_prime / F_prime_inv are checked "
          "entry by entry on a full lattice of evaluation states. Every (EOS, geometry, initial state, starting guess) of the Newton "
-         "lattice is solved and each reported convergence is judged. Exhaustive over the stated lattices; right level because the "
+         "lattice is solved through the front end, on one re-used newton_solver object, again after an EOS constant was changed through its public setter, and under an iteration cap of 3; each reported convergence is judged. Exhaustive over the stated lattices; right level because the "
          "failure modes are formula slips (argument order, missing factors, signs) that are wrong on open sets of states, which a "
          "lattice touching every branch and every off-default constant exposes.")
 LEVEL_NOTE = ("trusted: numpy, the finite-difference stencils, the transcription of the three documented jump conditions; assumed: "
